@@ -126,6 +126,8 @@ def main_(seed, nscen):
             yield D.set_uri("lit", lit, lit)
             yield D.set_uri("S", S.get_uri(), S.get_readonly_uri())
             secrets = {"D": D.get_uri(), "S": S.get_uri(), "m": m.get_uri(), "m2": m2.get_uri()}
+            # a write-cap holder is active in the same gateway: its nodes (obtained from the cap strings, hence in the node cache) stay alive
+            holders = [nm.create_from_cap(c_) for c_ in secrets.values()] if idx % 2 == 0 else []
             sis = [x.get_storage_index() for x in (D, S, m, m2)]
 
             def snapshot():
@@ -232,6 +234,7 @@ def main_(seed, nscen):
             if code != 200 or secrets["m"] not in content:
                 report["problems"].append({"kind": "harness", "what": "the write cap's JSON listing does not show the child's write cap (the disclosure check would be vacuous)"})
                 return
+            del holders
             report["scenarios"] += 1
         finally:
             if pump is not None and pump.running:
@@ -252,7 +255,7 @@ def main_(seed, nscen):
     print(json.dumps(report))
 
 
-BOUND = ("web API authority scenarios: real URIHandler/directory/filenode resources rendered in memory over the real in-process grid; a tree D/{m, chk, lit, S/{m2}} of real SDMF/MDMF objects; "
+BOUND = ("web API authority scenarios: real URIHandler/directory/filenode resources rendered in memory over the real in-process grid; a tree D/{m, chk, lit, S/{m2}} of real SDMF/MDMF objects, in every other scenario with write-cap nodes of the same objects alive in the gateway's node cache; "
          "10..22 of 22 mutating requests (PUT/POST/DELETE: upload, replace, mkdir, delete, unlink, rename, relink, link, set_children, at depth 0..2) sent through read caps, 22 GET forms "
          "(t=json, t=uri, t=readonly-uri, t=info, HTML, contents) through read caps, 5 control mutations through the write cap")
 KINDS = {"C41": (("write_through_read_cap", "write_cap_disclosed", "read_cap_cannot_read", "web_hang"), "requests-made-with-read-caps-change-nothing-and-learn-no-write-cap")}
